@@ -786,6 +786,49 @@ fn render_via(env: &mut Environment<'static>, ep: usize, c: &Case, expr: &str, s
     }
 }
 
+/// One instruction of an expression's code the way the Lean driver prints the model's (`showI`): the name,
+/// its operand where it has one, jump targets RELATIVE (instructions skipped), constants as `K` (their
+/// values are compared separately).  An instruction kind the model does not know prints as `X:<name>`.
+fn op_name(ins: &Instruction, index: u32) -> String {
+    use serde_json::Value as J;
+    let num = |j: &J| j.as_u64().map_or("-".to_string(), |n| n.to_string());
+    let text = |j: &J| j.as_str().unwrap_or("?").to_string();
+    if let Instruction::LoadConst(_) = ins {
+        return "K".to_string(); // (a constant beyond 64 bits has no JSON form)
+    }
+    match serde_json::to_value(ins).unwrap_or(J::Null) {
+        J::String(name) => name,
+        J::Object(m) => {
+            // `#[serde(tag = "op", content = "arg")]`
+            let name = m.get("op").and_then(|n| n.as_str()).unwrap_or("?").to_string();
+            let p = m.get("arg").cloned().unwrap_or(J::Null);
+            match name.as_str() {
+                "LoadConst" => "K".to_string(),
+                "Lookup" | "GetAttr" => format!("{}:{}", name, text(&p)),
+                "BuildList" | "BuildTuple" | "BuildMap" | "BuildKwargs" | "MergeKwargs" | "UnpackLists" => format!("{}:{}", name, num(&p)),
+                "CompareAndPreserve" => format!("CAP:{}", text(&p)),
+                "Jump" | "JumpIfFalse" | "JumpIfFalseOrPop" | "JumpIfTrueOrPop" => {
+                    let short = match name.as_str() {
+                        "Jump" => "J",
+                        "JumpIfFalse" => "JF",
+                        "JumpIfFalseOrPop" => "JFP",
+                        _ => "JTP",
+                    };
+                    match p.as_u64() {
+                        Some(t) if t > index as u64 => format!("{}:{}", short, t - (index as u64 + 1)),
+                        _ => format!("X:{}:backward", name),
+                    }
+                }
+                "ApplyFilter" | "PerformTest" | "CallFunction" | "CallMethod" => format!("{}:{}:{}", name, text(&p[0]), num(&p[1])),
+                "CallObject" => format!("CallObject:{}", num(&p)),
+                _ if p.is_null() => name,
+                _ => format!("X:{}", name),
+            }
+        }
+        _ => "X:?".to_string(),
+    }
+}
+
 fn run_case(c: &Case, _stream: &mut Rng) -> String {
     // the sampled hoisting subsets are a function of the case (and the seed), so that a replay meets the same ones
     let mut case_rng = Rng::new(fnv(&c.src) ^ fnv(&format!("c04-masks-{}", seed_from_env())));
@@ -813,6 +856,7 @@ fn run_case(c: &Case, _stream: &mut Rng) -> String {
     let mut lit = String::new();
     let mut hoist = String::new();
     let mut diffs = vec![];
+    let mut litval = String::new();
     for (mi, m) in ms.iter().enumerate() {
         let expr = c.variant(*m);
         let src = if c.tmpl { expr.clone() } else { c.wrap(&expr) };
@@ -846,6 +890,18 @@ fn run_case(c: &Case, _stream: &mut Rng) -> String {
 
         if o != lit {
             diffs.push(format!("{:x}@{}={}", m, ENTRY_POINTS[ep], o));
+        } else if !c.tmpl {
+            // the VALUE of every variant (not only its text): `1` and `"1"`, a list and its text, `true` and
+            // `"True"` render alike but are different results of the expression
+            let v = outcome(
+                guarded(|| env.compile_expression(&expr).and_then(|e| e.eval(ctx.clone())).map(|v| value_str(&v))),
+                |s| format!("ok {}", s),
+            );
+            if *m == 0 {
+                litval = v;
+            } else if v != litval {
+                diffs.push(format!("{:x}@value={}", m, v));
+            }
         }
     }
     if c.tmpl {
@@ -937,7 +993,8 @@ fn run_case(c: &Case, _stream: &mut Rng) -> String {
                 }
                 i += 1;
             }
-            Some(format!("{:x}|{}|{}", m, toks.join(" "), consts.join(",")))
+            let ops: Vec<String> = (0..).map_while(|i| instrs.get(i).map(|ins| op_name(ins, i))).collect();
+            Some(format!("{:x}|{}|{}|{}", m, toks.join(" "), consts.join(","), ops.join(" ")))
         });
         if let Ok(Some(e)) = r {
             codes.push(e);
@@ -1024,10 +1081,12 @@ const FLOATS: [&str; 24] = [
     "9007199254740993.0", "1.7976931348623157e308", "1e400", "0.3", "123456.789", "1e15", "1e16", "1e21",
     "1e-5", "0.0001", "5e-324", "2.2250738585072014e-308", "7.0",
 ];
-const STRS: [&str; 23] = [
+const STRS: [&str; 25] = [
     "\"a\\\"b\"", "\"it's\"", "'it\\'s'", "\"line\\nbreak\"", "\"tab\\t\"", "\"back\\\\slash\"", "\"\\u00e9\\u0001\"",
     "\"\"", "\"a\"", "\"ab\"", "\"abc\"", "\"b\"", "\"A\"", "\"0\"", "\"1\"", "\"10\"", "\" \"",
     "\"a b\"", "\"True\"", "\"none\"", "\"abcdefghijklmnopqrstuvwxyz\"", "'\u{e9}'", "\"1.0\"",
+    // markup: under an auto-escaping configuration a constant and a variable must be escaped alike
+    "\"<b>&\"", "\"<\"",
 ];
 const CONTAINERS: [&str; 18] = [
     "[]", "[1, 2]", "[1, \"a\", none]", "[\"a\", \"b\"]", "[[1], [2]]", "[0]", "[1.0, 2]", "()",
@@ -2246,7 +2305,291 @@ fn po_unstable(src: &str, tmpl: bool) -> bool {
         || src.contains("==") || src.contains("!=") || src.contains('<') || src.contains('>')
 }
 
+// ------------------------------------------------------------------------------------ operator chains
+/// Chains of three and four operands under every pair of operators and both associativities, at operand
+/// values where re-association, merging of constant operands or reordering is visible: floats at 2^53 and at
+/// the overflow threshold, signed zeros, integers at the 64/128 bit limits with neighbours of mixed sign,
+/// zero divisors, strings and sequences for `+`, `*`, `~`, equal-across-kinds values for comparisons.
+const CH_ADD_W: &[[&str; 3]] = &[
+    ["9007199254740992.0", "1", "2"], ["9007199254740992.0", "1.0", "1.0"], ["-9007199254740992.0", "-1", "-2"],
+    ["1e308", "1e308", "-1e308"], ["0.1", "0.2", "0.3"], ["-0.0", "0", "0"], ["1e16", "1", "1"], ["9007199254740993", "1.0", "-1.0"],
+    ["170141183460469231731687303715884105727", "1", "-1"], ["-170141183460469231731687303715884105727", "-2", "1"],
+    ["9223372036854775807", "1", "-1"], ["9223372036854775808", "-1", "1"], ["18446744073709551615", "1", "-1"],
+    ["18446744073709551616", "-1", "-1"], ["1", "2", "3"], ["\"a\"", "\"b\"", "\"c\""], ["[1]", "[2]", "[3]"], ["\"a\"", "1", "2"],
+    ["1", "2", "\"a\""], ["1", "170141183460469231731687303715884105727", "-1"], ["-1", "1", "170141183460469231731687303715884105727"],
+    ["1.5", "9007199254740992", "-9007199254740992"],
+];
+const CH_MUL_W: &[[&str; 3]] = &[
+    ["170141183460469231731687303715884105727", "2", "0"], ["9223372036854775807", "2", "0.5"], ["1e308", "10", "0.1"],
+    ["3", "0.1", "10"], ["7", "2", "2"], ["7", "0", "1"], ["2", "3", "2"], ["2", "0.5", "2"], ["-8", "3", "2"], ["\"ab\"", "2", "3"],
+    ["[1]", "2", "0"], ["5e-324", "0.5", "2"], ["4611686018427387904", "2", "2"], ["-7", "2", "-2"], ["7.5", "2", "0.0"],
+    ["1", "3", "3"], ["100", "7", "7.0"],
+];
+const CH_CAT_W: &[[&str; 3]] = &[
+    ["1", "2", "3"], ["\"a\"", "1", "2.0"], ["1", "\"a\"", "none"], ["true", "\"<\"", "1.5"], ["[1]", "\"a\"", "(1,)"], ["\"\"", "\"\"", "0"],
+];
+const CH_CMP_W: &[[&str; 3]] = &[
+    ["1", "2", "3"], ["3", "2", "1"], ["1", "1", "1"], ["1", "1.0", "true"], ["true", "1", "2"], ["false", "0", "0.0"],
+    ["\"a\"", "\"b\"", "\"a\""], ["1", "2", "1"], ["2", "1", "2"], ["none", "none", "1"], ["[1]", "[1]", "[1, 2]"], ["1", "\"a\"", "2"],
+    ["0", "false", "true"], ["true", "true", "1"], ["2", "2", "true"], ["9007199254740993", "9007199254740992.0", "9007199254740992"],
+];
+const CH_BOOL_W: &[[&str; 3]] = &[
+    ["0", "1", "2"], ["1", "0", "2"], ["\"\"", "[]", "none"], ["1", "2", "0"], ["none", "0", "\"a\""], ["u", "1", "0"], ["0", "u", "1"],
+    ["1", "1", "u"], ["0.0", "\"0\"", "{}"],
+];
+const CH_GEN_W: &[[&str; 3]] = &[
+    ["u", "1", "2"], ["1", "u", "2"], ["none", "1", "2"], ["true", "1", "1.0"], ["1", "2.5", "\"a\""], ["1", "2", "u"], ["2", "2", "2"],
+];
+const CH_CMPS: [&str; 8] = ["==", "!=", "<", "<=", ">", ">=", "in", "not in"];
+/// item, container, container of containers (and strings inside strings)
+const CH_IN_W: &[[&str; 3]] = &[
+    ["\"a\"", "\"ab\"", "\"abc\""], ["1", "[1]", "[[1]]"], ["\"a\"", "\"a\"", "\"a\""], ["1", "[1, 2]", "[[1, 2], 3]"],
+    ["\"b\"", "\"abc\"", "[\"abc\"]"], ["\"a\"", "{\"a\": 1}", "[{\"a\": 1}]"], ["true", "[1]", "[[1]]"], ["2", "[1]", "[[1]]"],
+    ["\"\"", "\"\"", "\"x\""], ["[1]", "[[1]]", "true"], ["1", "2", "[true]"], ["\"x\"", "\"abc\"", "[false]"],
+];
+
+fn ch_family(op: &str) -> (usize, &'static [[&'static str; 3]]) {
+    match op {
+        "+" | "-" => (0, CH_ADD_W),
+        "*" | "/" | "//" | "%" | "**" => (1, CH_MUL_W),
+        "~" => (2, CH_CAT_W),
+        "and" | "or" => (4, CH_BOOL_W),
+        "in" | "not in" => (5, CH_IN_W),
+        _ => (3, CH_CMP_W),
+    }
+}
+
+/// the chain cases as (backtick source, tag)
+fn gen_chains(rng: &mut Rng, thorough: bool) -> Vec<(String, String)> {
+    let leaf = |t: &str| if t == "u" { t.to_string() } else if let Some(r) = t.strip_prefix('-') { format!("-`{}`", r) } else { format!("`{}`", t) };
+    let mut pairs: Vec<(&'static str, &'static str)> = vec![];
+    for a in ARITH {
+        for b in ARITH {
+            pairs.push((a, b));
+        }
+    }
+    for a in CH_CMPS {
+        for b in CH_CMPS {
+            pairs.push((a, b));
+        }
+    }
+    for a in ["and", "or"] {
+        for b in ["and", "or"] {
+            pairs.push((a, b));
+        }
+    }
+    // arithmetic next to a comparison / a boolean operator
+    for (a, b) in [("+", "<"), ("+", "=="), ("-", "<="), ("<", "+"), ("==", "+"), (">=", "-"), ("*", "=="), ("==", "*"), ("+", "and"), ("or", "+"), ("<", "and"), ("or", "==")] {
+        pairs.push((a, b));
+    }
+    let mut out = vec![];
+    for (o1, o2) in pairs {
+        let (f1, w1) = ch_family(o1);
+        let (f2, w2) = ch_family(o2);
+        let mut triples: Vec<&[&str; 3]> = w1.iter().collect();
+        if f1 != f2 {
+            triples.extend(w2.iter());
+        }
+        let all = thorough || f1 == f2;
+        for (ai, shape) in ["A o1 B o2 C", "(A o1 B) o2 C", "A o1 (B o2 C)"].iter().enumerate() {
+            let mut chosen: Vec<&[&str; 3]> = if all { triples.clone() } else { (0..8).map(|_| *rng.pick(&triples)).collect() };
+            for _ in 0..2 {
+                chosen.push(rng.pick(CH_GEN_W));
+            }
+            for t in chosen {
+                let s = shape.replace("o1", o1).replace("o2", o2).replace('A', &leaf(t[0])).replace('B', &leaf(t[1])).replace('C', &leaf(t[2]));
+                out.push((s, format!("ch:{}_{}:{}:{}", o1.replace(' ', "-"), o2.replace(' ', "-"), ai, f1 * 10 + f2)));
+            }
+        }
+    }
+    // four operands under one operator (trailing constants that could be merged, longer comparison chains)
+    for op in ARITH.iter().chain(CH_CMPS.iter()).chain(["and", "or"].iter()) {
+        let (f, w) = ch_family(op);
+        let extra: &[&str] = match f {
+            0 => &["2", "-1", "1.0", "-2"],
+            1 => &["2", "0", "0.5"],
+            2 => &["\"d\"", "4"],
+            3 => &["1", "2", "true"],
+            5 => &["[[[1]]]", "\"abcd\"", "[true]"],
+            _ => &["3", "0"],
+        };
+        for t in w.iter() {
+            let d = *rng.pick(extra);
+            let s = format!("{} {} {} {} {} {} {}", leaf(t[0]), op, leaf(t[1]), op, leaf(t[2]), op, leaf(d));
+            out.push((s, format!("ch:{}_{}:4:{}", op.replace(' ', "-"), op.replace(' ', "-"), f * 10 + f)));
+        }
+    }
+    out
+}
+
+// ------------------------------------------------------------------------------------ operator x context matrix
+/// forms over two operand holes `A`, `B` (every one is parenthesised before it goes into a context)
+const MX_FORMS: &[&str] = &[
+    "A + B", "A - B", "A * B", "A / B", "A // B", "A % B", "A ** B", "A ~ B",
+    "A == B", "A != B", "A < B", "A <= B", "A > B", "A >= B", "A in B", "A not in B",
+    "A and B", "A or B",
+    "A is eq(B)", "A is ne(B)", "A is lt(B)", "A is le(B)", "A is gt(B)", "A is ge(B)", "A is in(B)", "A is divisibleby(B)",
+    "A is not eq(B)", "A is not lt(B)", "A is not ge(B)", "A is not in(B)",
+    "A < B < A", "A <= B <= A", "A == B == A", "A >= B > A", "A != B != A", "A <= B >= A", "A in B in B",
+    "A|default(B)", "A[B]", "A if B", "A if B else B", "(A, B)", "[A, B]", "{A: B}", "kw(A, ka=B)",
+    "-A", "not A", "A", "A is defined", "A is none", "A|length", "A|string",
+];
+
+/// expression contexts around a form (`#` = the parenthesised form; literals of the context are leaves too)
+const MX_CTXS: &[&str] = &[
+    "#", "not #", "not not #", "-#", "- -#", "not -#", "not not not #",
+    "# is true", "# is false", "# is not none", "# is defined", "# is not eq(`true`)", "# is not true",
+    "`\"T\"` if # else `\"F\"`", "`\"T\"` if not # else `\"F\"`", "`\"T\"` if #", "`\"T\"` if not #", "# if `true` else `0`",
+    "# and `\"x\"`", "# or `\"y\"`", "`true` and #", "`false` or #", "not # and `true`", "not (# or `false`)", "not # or not #",
+    "# and not #", "`true` and not #", "not (not # and not #)",
+    "# == `true`", "# != `false`", "`true` == #", "# in [`true`, `1`]", "not # == `false`", "not (# != `true`)", "# == #",
+    "#|string", "#|default(`\"d\"`)", "#|default(`\"d\"`, `true`)", "(not #)|string",
+    "[#, not #]", "{`\"k\"`: not #}", "kw(#, ka=not #)", "kw(ka=#)", "(not #,)",
+    "# ~ `\"\"`", "# + `0`", "# * `1`", "`0` + #", "not # ~ `\"\"`",
+    // positions that are never executed: a failing constant there must not be reported
+    "`true` or #", "`false` and #", "`\"ok\"` if `true` else #", "# if `false` else `\"ok\"`",
+];
+
+/// statement contexts
+const MX_STMT_CTXS: &[&str] = &[
+    "{% if # %}T{% else %}F{% endif %}",
+    "{% if not # %}T{% else %}F{% endif %}",
+    "{% if # %}T{% elif not # %}E{% else %}F{% endif %}",
+    "{% set x = not # %}[{{ x }}]",
+    "{% set x = # %}{{ not x }}|{{ x }}",
+    "{% for i in [`1`, `2`] if not # %}{{ i }}{% else %}E{% endfor %}",
+    "{% for i in [`1`, `2`] if # %}{{ i }}{% else %}E{% endfor %}",
+    "{{ # }}|{{ not # }}",
+    "{% with x = not # %}{{ x }}{% endwith %}",
+    "{% macro m(a=not #) %}{{ a }}{% endmacro %}{{ m() }}",
+    // never executed
+    "{% if `false` %}{{ # }}{% endif %}ok",
+    "{% if `true` %}ok{% else %}{{ # }}{% endif %}",
+    "{% for i in [] %}{{ # }}{% endfor %}ok",
+    "{% macro m() %}{{ # }}{% endmacro %}ok",
+];
+
+/// (lo, hi) with lo < hi inside one kind family or across number kinds
+const MX_ORDERED: &[(&str, &str)] = &[
+    ("1", "2"), ("1.5", "2.5"), ("1", "2.5"), ("1.0", "2"), ("0", "1"), ("\"a\"", "\"b\""), ("\"\"", "\"a\""), ("false", "true"),
+    ("[1]", "[1, 2]"), ("[]", "[1]"), ("false", "1"), ("0", "true"), ("2", "3"), ("0.0", "0.5"), ("(1,)", "(2,)"), ("\"<\"", "\">\""),
+];
+/// equal operands: the same spelling, or equal across kinds
+const MX_EQUAL: &[(&str, &str)] = &[
+    ("1", "1"), ("2", "2"), ("0", "0"), ("2.5", "2.5"), ("\"a\"", "\"a\""), ("\"\"", "\"\""), ("true", "true"), ("false", "false"),
+    ("none", "none"), ("[1]", "[1]"), ("[]", "[]"), ("1", "1.0"), ("1.0", "1"), ("true", "1"), ("1", "true"), ("0", "false"),
+    ("0.0", "0"), ("3", "3"), ("\"b\"", "'b'"), ("(1,)", "(1,)"), ("{}", "{}"), ("{\"a\": 1}", "{\"a\": 1}"), ("2", "2.0"), ("\"<\"", "\"<\""),
+];
+/// neither: mixed kinds, containers with members, identities, zero divisors, undefined
+const MX_SPECIAL: &[(&str, &str)] = &[
+    ("1", "\"a\""), ("\"a\"", "1"), ("none", "1"), ("0", "\"\""), ("\"\"", "0"), ("[]", "false"), ("u", "1"), ("1", "u"), ("u", "u"),
+    ("{}", "{\"a\": 1}"), ("\"a\"", "\"abc\""), ("1", "[1, 2]"), ("true", "[1]"), ("[1]", "[[1]]"), ("\"a\"", "{\"a\": 1}"), ("3", "[1, 2]"),
+    ("2", "0"), ("0", "0.0"), ("3", "2"), ("\"a\"", "0"), ("1", "none"), ("none", "false"), ("2.5", "0"), ("[1, 2]", "1"),
+    ("[1, 2]", "0"), ("{\"a\": 1}", "\"a\""), ("\"abc\"", "1"), ("true", "\"\""), ("\"x\"", "[]"), ("1", "1.5"), ("-1", "1"), ("0", "-0.0"),
+    ("\"1\"", "1"), ("\"a\"", "\"A\""), ("[1]", "(1,)"), ("4", "2"), ("7", "2"), ("u", "none"), ("none", "u"), ("\"\"", "u"),
+    ("\"<i>\"", "\"&\""), ("\"<i>\"", "1"), ("\"&\"", "\"&amp;\""),
+];
+
+/// operands of relation class `rel` (0 equal, 1 less, 2 greater, 3 special)
+fn mx_pair(rng: &mut Rng, rel: usize, _form: &str) -> (&'static str, &'static str, &'static str) {
+    match rel {
+        0 => {
+            let p = rng.pick(MX_EQUAL);
+            (p.0, p.1, "eq")
+        }
+        1 => {
+            let p = rng.pick(MX_ORDERED);
+            (p.0, p.1, "lt")
+        }
+        2 => {
+            let p = rng.pick(MX_ORDERED);
+            (p.1, p.0, "gt")
+        }
+        _ => {
+            let p = rng.pick(MX_SPECIAL);
+            (p.0, p.1, "special")
+        }
+    }
+}
+
+/// `ctx` with every `#` replaced by `(form[A, B])`; operands that are literals become leaves (backticks)
+fn mx_source(ctx: &str, form: &str, a: &str, b: &str) -> String {
+    let leaf = |t: &str| if t == "u" { t.to_string() } else if let Some(r) = t.strip_prefix('-') { format!("-`{}`", r) } else { format!("`{}`", t) };
+    let mut f = String::from("(");
+    for ch in form.chars() {
+        match ch {
+            'A' => f.push_str(&leaf(a)),
+            'B' => f.push_str(&leaf(b)),
+            c => f.push(c),
+        }
+    }
+    f.push(')');
+    ctx.replace('#', &f)
+}
+
 const MODES: [&str; 4] = ["lenient", "strict", "chainable", "semistrict"];
+
+/// Cases are generated sequentially (one generator stream, so the case list is a function of the seed) and
+/// RUN in parallel: a case is self-contained (its own environment, its own mask stream derived from its
+/// source), so the output - written in generation order - does not depend on the number of threads.
+struct Sink {
+    batch: Vec<Case>,
+    threads: usize,
+}
+
+impl Sink {
+    fn new() -> Sink {
+        let threads = std::env::var("C04_THREADS")
+            .ok()
+            .and_then(|s| s.parse().ok())
+            .unwrap_or_else(|| std::thread::available_parallelism().map(|n| n.get()).unwrap_or(4))
+            .clamp(1, 16);
+        Sink { batch: vec![], threads }
+    }
+
+    fn push(&mut self, c: Case, out: &mut impl Write) {
+        self.batch.push(c);
+        if self.batch.len() >= 4096 {
+            self.flush(out);
+        }
+    }
+
+    fn flush(&mut self, out: &mut impl Write) {
+        let cases = std::mem::take(&mut self.batch);
+        let next = std::sync::atomic::AtomicUsize::new(0);
+        let mut results: Vec<Option<String>> = (0..cases.len()).map(|_| None).collect();
+        let parts: Vec<Vec<(usize, String)>> = std::thread::scope(|s| {
+            let handles: Vec<_> = (0..self.threads)
+                .map(|_| {
+                    std::thread::Builder::new()
+                        .stack_size(64 << 20)
+                        .spawn_scoped(s, || {
+                            let mut mine = vec![];
+                            let mut dummy = Rng::new(0);
+                            loop {
+                                let i = next.fetch_add(1, std::sync::atomic::Ordering::Relaxed);
+                                if i >= cases.len() {
+                                    break;
+                                }
+                                mine.push((i, run_case(&cases[i], &mut dummy)));
+                            }
+                            mine
+                        })
+                        .unwrap()
+                })
+                .collect();
+            handles.into_iter().map(|h| h.join().unwrap()).collect()
+        });
+        for part in parts {
+            for (i, line) in part {
+                results[i] = Some(line);
+            }
+        }
+        for line in results {
+            writeln!(out, "{}", line.unwrap()).unwrap();
+        }
+    }
+}
 
 fn main() {
     quiet_panics();
@@ -2257,6 +2600,7 @@ fn main() {
     let mut rng = Rng::new(fnv(&format!("c04-seed-{}", seed_from_env())));
     match args.get(1).map(|s| s.as_str()) {
         Some("gen") => {
+            let mut sink = Sink::new();
             let tier = args.get(2).map(|s| s.as_str()).unwrap_or("quick");
             let n = if tier == "thorough" { 300000 } else { 12000 };
             // `gen <tier> small`: a quarter of the cases (used for the `preserve_order` build)
@@ -2268,10 +2612,10 @@ fn main() {
                 let uses_u = s.contains('u') && s.split(|c: char| !c.is_alphanumeric()).any(|w| w == "u");
                 if uses_u {
                     for m in MODES {
-                        writeln!(out, "{}", run_case(&seed_case(m, s), &mut rng)).unwrap();
+                        sink.push(seed_case(m, s), &mut out);
                     }
                 } else {
-                    writeln!(out, "{}", run_case(&seed_case(MODES[i % 4], s), &mut rng)).unwrap();
+                    sink.push(seed_case(MODES[i % 4], s), &mut out);
                 }
             }
             for i in 0..n {
@@ -2285,7 +2629,7 @@ fn main() {
                     continue;
                 }
                 let mode = *rng.pick(&MODES);
-                writeln!(out, "{}", run_case(&Case { mode: mode.into(), src, spans, tmpl: false, tag: "-".into() }, &mut rng)).unwrap();
+                sink.push(Case { mode: mode.into(), src, spans, tmpl: false, tag: "-".into() }, &mut out);
             }
             // the size-class stream: every operator form x every container size, items and probes from the
             // cross-kind equality classes; containers hoisted item by item and as a whole
@@ -2309,17 +2653,56 @@ fn main() {
                             }
                             let mode = *rng.pick(&MODES);
                             let tag = format!("sized:{}{}:{}:{}", if tmpl { "s" } else { "e" }, fi, n, CLASSES[z.class].0);
-                            writeln!(out, "{}", run_case(&Case { mode: mode.into(), src, spans, tmpl, tag }, &mut rng)).unwrap();
+                            sink.push(Case { mode: mode.into(), src, spans, tmpl, tag }, &mut out);
                         }
                     }
                 }
+            }
+            // the operator x context matrix: every binary/unary form under every unary, boolean, test, conditional,
+            // call and statement context, at operand values that are equal / ordered both ways / special
+            let mx_rounds = if tier == "thorough" { 4 } else { 1 };
+            let mut mx_combo = 0usize;
+            for round in 0..mx_rounds {
+                for (tmpl, ctxs) in [(false, MX_CTXS), (true, MX_STMT_CTXS)] {
+                    for (ci, ctx) in ctxs.iter().enumerate() {
+                        for (fi, form) in MX_FORMS.iter().enumerate() {
+                            for rel in 0..4usize {
+                                mx_combo += 1;
+                                let (a, b, relname) = mx_pair(&mut rng, rel, form);
+                                if small && (mx_combo + round) % 4 != 0 {
+                                    continue;
+                                }
+                                let s = mx_source(ctx, form, a, b);
+                                let mut c = seed_case(*rng.pick(&MODES), &s);
+                                if po_unstable(&c.src, tmpl) {
+                                    continue;
+                                }
+                                c.tmpl = tmpl;
+                                c.tag = format!("mx:{}{}:{}:{}", if tmpl { "s" } else { "e" }, ci, fi, relname);
+                                sink.push(c, &mut out);
+                            }
+                        }
+                    }
+                }
+            }
+            // operator chains of three and four operands
+            for (ci, (src, tag)) in gen_chains(&mut rng, tier == "thorough").into_iter().enumerate() {
+                if small && ci % 4 != 0 {
+                    continue;
+                }
+                let mut c = seed_case(*rng.pick(&MODES), &src);
+                if po_unstable(&c.src, false) {
+                    continue;
+                }
+                c.tag = tag;
+                sink.push(c, &mut out);
             }
             for (i, s) in EMIT_SEEDS.iter().enumerate() {
                 for cfg in 0..4 {
                     let mut c = seed_case(MODES[(i + cfg) % 4], s);
                     c.tmpl = true;
                     c.tag = format!("cfg{}", cfg);
-                    writeln!(out, "{}", run_case(&c, &mut rng)).unwrap();
+                    sink.push(c, &mut out);
                 }
             }
             // the statement stream: literals in statement heads, defaults, include targets, …
@@ -2332,7 +2715,7 @@ fn main() {
                     if uses_u || j == i % 4 {
                         let mut c = seed_case(m, s);
                         c.tmpl = true;
-                        writeln!(out, "{}", run_case(&c, &mut rng)).unwrap();
+                        sink.push(c, &mut out);
                     }
                 }
             }
@@ -2342,8 +2725,9 @@ fn main() {
                     continue;
                 }
                 let mode = *rng.pick(&MODES);
-                writeln!(out, "{}", run_case(&Case { mode: mode.into(), src, spans, tmpl: true, tag: "-".into() }, &mut rng)).unwrap();
+                sink.push(Case { mode: mode.into(), src, spans, tmpl: true, tag: "-".into() }, &mut out);
             }
+            sink.flush(&mut out);
         }
         Some("one") => {
             let mode = args[2].clone();
